@@ -210,26 +210,32 @@ def _check_more_operands(acc, pendulum, x, z, f, kw, case):
                 acc.mismatch(name, "value", case, r, exp)
     if z is None:
         return
+    from .. import foreign
+    xo = obs.offset_s(x)
     if isinstance(z, int):
-        fx = pendulum.DateTime(*f, tzinfo=dt_.timezone(dt_.timedelta(seconds=z)))
-        fname = "stdlib-timezone"
+        recv = [("stdlib-timezone", z, pendulum.DateTime(*f, tzinfo=foreign.fixed(z))),
+                ("stdlib-named", z, pendulum.DateTime(*f, tzinfo=foreign.named_fixed(z)))]
     else:
-        fx = pendulum.DateTime(*f, tzinfo=zoneinfo.ZoneInfo(z), fold=x.fold)
-        fname = "zoneinfo"
-    if _obs(fx) != _obs(x):
-        return
-    for name, sign, fn in (("add", 1, lambda: fx.add(**kw)), ("subtract", -1, lambda: fx.subtract(**kw))):
-        exp = expected(z, f, kw, sign)
-        if exp is None:
+        # a zoneinfo object is kept as the named zone; a stdlib fixed offset (also one whose NAME other offsets share) and
+        # a DST-aware tzinfo without a key are kept as the offset in force at the receiver
+        recv = [("zoneinfo", z, pendulum.DateTime(*f, tzinfo=foreign.zi(z), fold=x.fold)),
+                ("stdlib-named", xo, pendulum.DateTime(*f, tzinfo=foreign.named_fixed(xo))),
+                ("keyless-dst-tzinfo", xo, pendulum.DateTime(*f, tzinfo=foreign.keyless(z), fold=x.fold))]
+    for fname, fz, fx in recv:
+        if _obs(fx) != _obs(x):
             continue
-        try:
-            r = _obs(fn())
-        except Exception as e:  # noqa: BLE001
-            r = f"raises {type(e).__name__}"
-        acc.c["evaluations"] += 1
-        acc.c["transitions"] += 1
-        if r != exp:
-            acc.mismatch(name, "foreign-tzinfo-receiver/" + fname, dict(case, receiver=fname), r, exp)
+        for name, sign, fn in (("add", 1, lambda: fx.add(**kw)), ("subtract", -1, lambda: fx.subtract(**kw))):
+            exp = expected(fz, f, kw, sign)
+            if exp is None:
+                continue
+            try:
+                r = _obs(fn())
+            except Exception as e:  # noqa: BLE001
+                r = f"raises {type(e).__name__}"
+            acc.c["evaluations"] += 1
+            acc.c["transitions"] += 1
+            if r != exp:
+                acc.mismatch(name, "foreign-tzinfo-receiver/" + fname, dict(case, receiver=fname), r, exp)
 
 
 def _no_ym(d):
